@@ -13,14 +13,6 @@ import (
 	"github.com/wader/gojq"
 )
 
-func show(v any) string {
-	b, err := gojq.Marshal(v)
-	if err != nil {
-		return fmt.Sprintf("%#v", v)
-	}
-	return string(b)
-}
-
 func TestExplore(t *testing.T) {
 	f := os.Getenv("C07_EXPLORE")
 	if f == "" {
